@@ -139,7 +139,8 @@ type Frontend struct {
 	tlsSrv *http.Server
 	tlsCfg *tls.Config
 
-	// wg counts the post-response hooks still running.
+	// wg counts the serving goroutines and the post-response hooks still
+	// running.
 	wg sync.WaitGroup
 
 	logic frontend.TrackerLogic
@@ -202,8 +203,21 @@ func NewFrontend(logic frontend.TrackerLogic, provided Config) (*Frontend, error
 		}
 	}
 
+	// The servers must exist before NewFrontend returns: Stop may be called
+	// before the serving goroutines have been scheduled.
 	if cfg.Addr != "" {
+		f.srv = &http.Server{
+			Addr:         f.Addr,
+			Handler:      f.handler(),
+			ReadTimeout:  f.ReadTimeout,
+			WriteTimeout: f.WriteTimeout,
+			IdleTimeout:  f.IdleTimeout,
+		}
+		f.srv.SetKeepAlivesEnabled(f.EnableKeepAlive)
+
+		f.wg.Add(1)
 		go func() {
+			defer f.wg.Done()
 			if err := f.serveHTTP(listenerHTTP); err != nil {
 				log.Fatal("failed while serving http", log.Err(err))
 			}
@@ -211,7 +225,18 @@ func NewFrontend(logic frontend.TrackerLogic, provided Config) (*Frontend, error
 	}
 
 	if cfg.HTTPSAddr != "" {
+		f.tlsSrv = &http.Server{
+			Addr:         f.HTTPSAddr,
+			TLSConfig:    f.tlsCfg,
+			Handler:      f.handler(),
+			ReadTimeout:  f.ReadTimeout,
+			WriteTimeout: f.WriteTimeout,
+		}
+		f.tlsSrv.SetKeepAlivesEnabled(f.EnableKeepAlive)
+
+		f.wg.Add(1)
 		go func() {
+			defer f.wg.Done()
 			if err := f.serveHTTPS(listenerHTTPS); err != nil {
 				log.Fatal("failed while serving https", log.Err(err))
 			}
@@ -235,8 +260,8 @@ func (f *Frontend) Stop() stop.Result {
 	c := make(stop.Channel)
 	go func() {
 		errs := stopGroup.Stop().Wait()
-		// No handler is active any more; wait for the post-response hooks
-		// they started.
+		// No handler is active any more; wait for the serving goroutines
+		// (they close the listeners) and for the post-response hooks.
 		f.wg.Wait()
 		c.Done(errs...)
 	}()
@@ -268,17 +293,8 @@ func (f *Frontend) handler() http.Handler {
 // serveHTTP blocks while listening and serving non-TLS HTTP BitTorrent
 // requests until Stop() is called or an error is returned.
 func (f *Frontend) serveHTTP(l net.Listener) error {
-	f.srv = &http.Server{
-		Addr:         f.Addr,
-		Handler:      f.handler(),
-		ReadTimeout:  f.ReadTimeout,
-		WriteTimeout: f.WriteTimeout,
-		IdleTimeout:  f.IdleTimeout,
-	}
-
-	f.srv.SetKeepAlivesEnabled(f.EnableKeepAlive)
-
-	// Start the HTTP server.
+	// Start the HTTP server.  Serve closes l before returning, also when
+	// the server has already been shut down.
 	if err := f.srv.Serve(l); !errors.Is(err, http.ErrServerClosed) {
 		return err
 	}
@@ -288,16 +304,6 @@ func (f *Frontend) serveHTTP(l net.Listener) error {
 // serveHTTPS blocks while listening and serving TLS HTTP BitTorrent
 // requests until Stop() is called or an error is returned.
 func (f *Frontend) serveHTTPS(l net.Listener) error {
-	f.tlsSrv = &http.Server{
-		Addr:         f.HTTPSAddr,
-		TLSConfig:    f.tlsCfg,
-		Handler:      f.handler(),
-		ReadTimeout:  f.ReadTimeout,
-		WriteTimeout: f.WriteTimeout,
-	}
-
-	f.tlsSrv.SetKeepAlivesEnabled(f.EnableKeepAlive)
-
 	// Start the HTTP server.
 	if err := f.tlsSrv.ServeTLS(l, "", ""); !errors.Is(err, http.ErrServerClosed) {
 		return err
